@@ -256,6 +256,15 @@ class C09(BaseCheck):
             ch = r.choice([u'\u00e9', u'\u00b5', u'\u0436', u'\uff11', u'\u00df', u'\u0663'])
             out.append((text[:b] + ch + text[b:], 'nonascii-in-name',
                         'non-ASCII alphanumeric %r appended to a tag/column name (names are ASCII letters, digits, underscore) at %d' % (ch, b)))
+        for (a, b, inner_v3) in d.inner[:2]:
+            # the header of a NESTED grid is a version header too: text[a-5:a] is 'ver:"' and text[b] the closing quote
+            if text[a - 5:a] == 'ver:"' and text[b:b + 1] == '"':
+                how = r.choice(['blank-before-colon', 'blank-after-colon', 'backticks', 'tag-before-ver', 'no-quotes'])
+                hs_, he_ = a - 5, b + 1
+                new = {'blank-before-colon': 'ver :"3.0"', 'blank-after-colon': 'ver: "3.0"', 'backticks': 'ver:`3.0`',
+                       'tag-before-ver': 'm ver:"3.0"', 'no-quotes': 'ver:3.0'}[how]
+                out.append((text[:hs_] + new + text[he_:], 'inner-damage-ver',
+                            'version header of a nested grid malformed (%s) at %d' % (how, hs_)))
         for (a, b, inner_v3) in d.inner:
             if inner_v3:
                 out.append((text[:a] + '2.0' + text[b:], 'inner-verskew-pre3',
